@@ -119,8 +119,11 @@ def check_c19(run: Run, prog: Program) -> None:
     run.floor("E2.S4", dunder.rule_S4(run, prog), 2)
     from geolint import indexing
 
-    run.stats["index_tuples"] = indexing.rule_E13(run, prog, max_len=4 if run.tier == "thorough" else 3)
-    run.stats["index_type_cases_total"] = indexing.rule_E15(run, prog)
+    focus = getattr(run, "focus", None)
+    if focus in (None, "E13"):
+        run.stats["index_tuples"] = indexing.rule_E13(run, prog, max_len=4 if run.tier == "thorough" else 3)
+    if focus in (None, "E15"):
+        run.stats["index_type_cases_total"] = indexing.rule_E15(run, prog)
     run.floor("super() call sites", n1, 30)
     run.floor("operator presence obligations", n3, 50)
     if not any(o.rule == "E3.T" and o.verdict == UNDECIDED for o in run.obligations):
@@ -455,7 +458,8 @@ def check_c05(run: Run, prog: Program) -> None:
     )
     from geolint import diagram
 
-    run.stats["diagram_shapes"] = diagram.rule_E14(run, prog)
+    if getattr(run, "focus", None) in (None, "E14"):
+        run.stats["diagram_shapes"] = diagram.rule_E14(run, prog)
     sites = _error_rules(run, prog, "TensorComputationError", ["TensorDiagram.add_edge", "TensorDiagram.__init__"])
     run.floor("TensorComputationError raise sites", len(sites), 2)
     nc = purity.rule_caches(run, prog)
